@@ -34,6 +34,8 @@ def getitem(I, b, ix, node=None):
     if isinstance(ix, ArrRef) and I.A(ix).sort == BoolS and I.A(ix).ndim == 1:
         return I.cur['prev_getitem'](I, b, cached_where(I, ix), node)
     A = I.A(b) if isinstance(b, ArrRef) else None
+    if A is not None and A.ndim == 2 and isinstance(ix, tuple) and len(ix) == 2 and isinstance(ix[0], slice) and ix[0] == slice(None) and isinstance(ix[1], ArrRef) and I.A(ix[1]).sort == BoolS:
+        return I.cur['prev_getitem'](I, b, (slice(None), cached_where(I, ix[1])), node)
     if A is not None and A.ndim == 2 and isinstance(ix, tuple) and len(ix) == 2 and isinstance(ix[0], slice) and ix[0] == slice(None) and isinstance(ix[1], slice) and ix[1].step is None:
         # column blocks of a matrix known to have at least two columns: [:, -1:] (last column), [:, :1] (first column), [:, :-1] (all but the last)
         st, sp = ix[1].start, ix[1].stop
@@ -68,6 +70,10 @@ def np_any(I, a, axis=None, **kw):
         npstubs.used('np.any(axis=1)')
         n = tz(A.shape[1])
         return I.new_arr(ArrVal((A.shape[0],), lambda i: Exists([j_], And(0 <= j_, j_ < n, A.elem(tz(i), j_))), BoolS))
+    if A.ndim == 2 and axis == 0:
+        npstubs.used('np.any(axis=0)')
+        n = tz(A.shape[0])
+        return I.new_arr(ArrVal((A.shape[1],), lambda j: Exists([j_], And(0 <= j_, j_ < n, A.elem(j_, tz(j)))), BoolS))
     return I.cur['prev_any'](I, a, axis=axis, **kw)
 
 def np_ext(kind):
